@@ -229,7 +229,9 @@ func (s *fsm12) finish(ctx context.Context, c Conn) (State, error) {
 	select {
 	case state := <-c.RecvHandshake():
 		close(state.Done)
-		if s.state.IsClient {
+		// Whoever sent the last flight answers the peer's retransmission with it:
+		// the server after a full handshake, the client after a resumed one.
+		if !s.currentFlight.IsLastSendFlight() {
 			return StateFinished, nil
 		}
 
